@@ -7,7 +7,7 @@ from impl import trees, grammar, quiet
 from props.c07 import REORD
 
 ID = "C08"
-MODULE = ['TT.Props.C08', 'TT.Props.C08More', 'TT.Props.C08Net']
+MODULE = ['TT.Props.C08', 'TT.Props.C08More', 'TT.Props.C08Net', 'TT.Props.C03Cmd']
 RULE = ("random treebanks in which the same rule occurs repeatedly and under different parents; grammar types treebank / "
         "leftright / optimal; deterministic and Markov v,h in 0..3 with/without nofanout; mass balance per label and per "
         "symbol on the implementation's dicts. Non-trivial: some count exceeds 1")
@@ -118,6 +118,14 @@ def cli_big(rng):
 
 
 def gen(seed, tier, scale):
+    # wave 18: `treetools grammar` with --markov words on every source format against TT.runGrammarCmd (markovOf: defaults v 1,
+    # h 2, `nofanout` by presence): what the COMMAND does between `--markov` and `binarize` must not lose counts either
+    import srccases
+    import cli as _cli
+    nw = (24 if tier == "quick" else 400) * scale
+    rngs = [case_rng(seed, ID, 710000 + i) for i in range(nw)]
+    for i, c in enumerate(_cli.pmap(srccases.grammar_case, rngs)):
+        yield 710000 + i, c
     for i in range((4 if tier == "quick" else 40) * scale):
         yield 700000 + i, cli_big(case_rng(seed, ID, 700000 + i))
     idx = 0
